@@ -144,34 +144,42 @@ Fixpoint write_chunks (w : wstate) (cs : list bytes) : prog (res wstate) :=
 
 Definition drop_writer (w : wstate) : prog (res unit) := unlink_quiet (w_tmp w) (Ok tt).
 
-(* content::write::Writer::close *)
+(* content::write::Writer::close, second half: create the shard directories, publish by rename; a failed rename is
+   accepted iff the destination exists *)
+Definition publish (w : wstate) (cp : path) (sri : integrity) : prog (res integrity) :=
+  Do (MkdirAll (parent cp)) (fun r0 =>
+    match r0 with
+    | RErr _ => unlink_quiet (w_tmp w) (Err EIoErr)
+    | _ =>
+        Do (Rename (w_tmp w) (InCache cp)) (fun r =>
+          match r with
+          | RErr _ =>
+              Do (Exists (InCache cp)) (fun r2 =>
+                match r2 with
+                | RBool true => unlink_quiet (w_tmp w) (Ok sri)
+                | _ => unlink_quiet (w_tmp w) (Err EIoErr)
+                end)
+          | _ => Ret (Ok sri)
+          end)
+    end).
+
+(* the optional trim of a mapped temp file to the bytes actually stored (finish_mmap) *)
+Definition trim (w : wstate) : prog (res unit) :=
+  match w_map w with
+  | Some sz => if w_pos w <? sz then step_ok (Truncate (w_tmp w) (w_pos w)) else Ret (Ok tt)
+  | None => Ret (Ok tt)
+  end.
+
+(* content::write::Writer::close: trim first, then publish *)
 Definition close_writer (w : wstate) : prog (res integrity) :=
   let sri := sri_of hash (w_algo w) (w_data w) in
   match content_path sri with
   | None => unlink_quiet (w_tmp w) Panic
   | Some cp =>
-      let trunc := match w_map w with
-                   | Some sz => if w_pos w <? sz then step_ok (Truncate (w_tmp w) (w_pos w)) else Ret (Ok tt)
-                   | None => Ret (Ok tt) end in
-      Do (MkdirAll (parent cp)) (fun r0 =>
-        match r0 with
-        | RErr _ => unlink_quiet (w_tmp w) (Err EIoErr)
-        | _ =>
-          bind trunc (fun rt =>
-            match rt with
-            | Ok _ =>
-                Do (Rename (w_tmp w) (InCache cp)) (fun r =>
-                  match r with
-                  | RErr _ =>
-                      Do (Exists (InCache cp)) (fun r2 =>
-                        match r2 with
-                        | RBool true => unlink_quiet (w_tmp w) (Ok sri)
-                        | _ => unlink_quiet (w_tmp w) (Err EIoErr)
-                        end)
-                  | _ => Ret (Ok sri)
-                  end)
-            | _ => unlink_quiet (w_tmp w) (Err EIoErr)
-            end)
+      bind (trim w) (fun rt =>
+        match rt with
+        | Ok _ => publish w cp sri
+        | _ => unlink_quiet (w_tmp w) (Err EIoErr)
         end)
   end.
 
